@@ -1314,6 +1314,23 @@ def oracle(ctx, widened):
             guarded(out, j2_case, gen_dated(rng, k, gen_j2_input))
         for k in range(108 * (4 if big else 1)):
             guarded(out, api_case, dict(gen_dated(rng, k, gen_kepler_input if k % 2 else gen_j2_input), api=True))
+        # outside the J2 clause's domain (0 <= e < 1: the secular rates are orbit averages, dM contains sqrt(1 - e^2)): what the code
+        # does with a hyperbolic orbit is RECORDED, never judged (ASSUMPTIONS; theorem j2_outside_domain_hyperbolic)
+        for _ in range(20):
+            inp = gen_kepler_input(rng)
+            if inp["mean_elements"][1] <= 1 or inp["frame"] in OTHER_BODIES:
+                continue
+            out.count(key=("j2-hyperbolic", tuple(inp["mean_elements"]), inp["dt"]), kind="j2-hyperbolic-probe(outside the domain)")
+            try:
+                with time_limit():
+                    orb, d0 = make(inp["mean_elements"], inp["form"], inp["frame"], "J2")
+                    from beyond.dates import timedelta as _td
+                    r = [float(v) for v in orb.propagate(_td(seconds=inp["dt"]))]
+                out.tally("j2-hyperbolic=" + ("finite state" if finite(r) else "non-finite state, silently"))
+            except NoReturn:
+                out.tally("j2-hyperbolic=no return")
+            except Exception as ex:
+                out.tally("j2-hyperbolic=raises " + type(ex).__name__)
     out.sample({"checks": "kepler: elements constant, M advance, compose, inverse, periodic, universal-variable; j2: a e i constant, secular rates, polar, critical, sso, compose"})
     return out
 
@@ -1626,6 +1643,17 @@ def gen_m2e_input(rng):
     else:
         e = 1 + math.exp(rng.uniform(math.log(0.01), math.log(9.0)))
     M = rng.uniform(-40, 40) if rng.random() < 0.6 else rng.uniform(-3000, 3000)
+    if rng.random() < 0.15:
+        # the edges of the domain and of the start-value branches: e at 1e-4 / 0.95 / 1.01 / 1.6 / 3.6 / 10, reduced anomalies within
+        # 1e-1 … 1e-14 of 0 and of +-pi (where the start value overshoots), clamp threshold |H0| = 30 of the hyperbolic branch
+        e = rng.choice([1e-4, 0.95, 0.95 - 1e-9, 1.01, 1.01 + 1e-9, 1.6, 1.6 - 1e-12, 3.6, 3.6 - 1e-12, 10.0]) if rng.random() < 0.7 else e
+        k = rng.randint(-480, 480)
+        off = rng.choice([-1, 1]) * 10.0 ** rng.uniform(-14, -1)
+        if e < 1:
+            M = math.pi * k + off
+        else:
+            M = rng.choice([off, math.pi + off, -math.pi + off, 30.0 * (e - 1) + off, -30.0 * (e - 1) + off, 30.0 - e + off, -30.0 + e + off,
+                            rng.choice([-1, 1]) * 10.0 ** rng.uniform(1, 3.5)])
     return {"m2e": True, "e": e, "M": M}
 
 
